@@ -75,6 +75,53 @@ def read_and_edit(path):
             pass
 
 
+def through_input_helper(job):
+    """the tools read their input through rnapolis.util.handle_input_file (a temporary working copy, gz unpacked): what is
+    read from the copy must be what is read from the file itself - also when the last line has no line end, when lines end
+    in CRLF or carry trailing blanks, and for the gzipped file"""
+    import gzip
+    from rnapolis.parser import read_3d_structure
+    from rnapolis.util import handle_input_file
+    text, fmt, variant = job
+    if variant == "no-final-newline":
+        lines = text.rstrip("\n").split("\n")
+        while lines and fmt == "pdb" and not lines[-1].startswith(("ATOM", "HETATM")):
+            lines.pop()
+        while lines and fmt == "cif" and (lines[-1].strip() in ("", "#")):
+            lines.pop()
+        text = "\n".join(lines)
+    elif variant == "crlf":
+        text = text.replace("\n", "\r\n")
+    elif variant == "trailing-blanks":
+        text = "\n".join(l + "  " if k % 3 == 0 and fmt == "pdb" else l for k, l in enumerate(text.split("\n")))
+    d = tempfile.mkdtemp(prefix="c08-helper-", dir=tmpdir())
+    out = {}
+    try:
+        path = os.path.join(d, "input." + fmt)
+        with open(path, "w", newline="") as f:
+            f.write(text)
+        paths = [("plain", path)]
+        with gzip.open(path + ".gz", "wt", newline="") as f:
+            f.write(text)
+        paths.append(("gz", path + ".gz"))
+        with contextlib.redirect_stdout(io.StringIO()), contextlib.redirect_stderr(io.StringIO()):
+            try:
+                with open(path, newline="") as f:
+                    out["direct"] = ("ok", canon(read_3d_structure(f, None)))
+            except Exception as e:  # noqa: BLE001
+                out["direct"] = ("err", exc_name(e))
+            for tag, p in paths:
+                try:
+                    out[tag] = ("ok", canon(read_3d_structure(handle_input_file(p), None)))
+                except Exception as e:  # noqa: BLE001
+                    out[tag] = ("err", exc_name(e))
+    finally:
+        for n in os.listdir(d):
+            os.unlink(os.path.join(d, n))
+        os.rmdir(d)
+    return out
+
+
 def real_read(path, reqs, history=None):
     from rnapolis.parser import read_3d_structure
     out = {}
@@ -600,22 +647,42 @@ def run(ctx):
             res.count("shape:" + t)
         res.count("models:%d" % meta["nmodels"])
         if meta["pdb_ok"]:
-            text = g4v1.to_pdb(recs, ter=rng.random() < 0.7, header=rng.random() < 0.5)
+            # serials are a field of the record, not a count: now and then they start just below 10 000, so that hetero
+            # records carry five-digit serials touching the record name (HETATM10002)
+            serial0 = 1 if rng.random() < 0.85 else rng.choice([9990, 9999, 99900])
+            text = g4v1.to_pdb(recs, ter=rng.random() < 0.7, header=rng.random() < 0.5, serial0=serial0)
             hist = "read-and-edited-before" if rng.random() < 0.2 else None
             jobs.append(dict(kind="table", fmt="pdb", text=text, decoy=rng.random() < 0.1, history=hist))
             items.append(dict(tag=tag, fmt="pdb", toks=tokens_of_table(recs, "pdb"), records=recs, meta=meta, text=text,
-                              inp=dict(family=tag, format="pdb", records=recs, history=hist)))
+                              inp=dict(family=tag, format="pdb", records=recs, history=hist, serial0=serial0)))
         attrs, vtag = cif_variant(rng, recs)
         if meta.get("cif_attrs"):
             attrs, vtag = meta["cif_attrs"], "no-auth-comp-item"
         res.count("cif-layout:" + vtag)
         text, attrs, rows = g4v1.to_cif(recs, attrs)
+        if rng.random() < 0.12:
+            # reserved words of CIF are case-insensitive
+            text = re.sub(r"(?m)^(data_|loop_)", lambda mm: mm.group(1).upper() if rng.random() < 0.7 else mm.group(1).capitalize(), text)
+            res.count("cif-layout:keywords-not-lower-case")
         hist = "read-and-edited-before" if rng.random() < 0.2 else None
         jobs.append(dict(kind="table", fmt="cif", text=text, decoy=rng.random() < 0.1, history=hist))
         items.append(dict(tag=tag, fmt="cif", toks=tokens_of_table(recs, "cif", attrs), records=recs, meta=meta, text=text, rows=rows,
                           attrs=attrs, inp=dict(family=tag, format="cif", records=recs, attrs=attrs, history=hist)))
         if hist:
             res.count("history:read-and-edited-before")
+    helper_jobs = []
+    for j in rng.sample(jobs, min(len(jobs), ctx.pick(120, 1200))):
+        helper_jobs.append((j["text"], j["fmt"], rng.choice(["as-is", "no-final-newline", "no-final-newline", "crlf", "trailing-blanks"])))
+    for (text, fmt, variant), o in zip(helper_jobs, parallel_map(through_input_helper, helper_jobs)):
+        res.count("input-helper:%s:%s" % (fmt, variant))
+        res.case(("input-helper", fmt, variant, hash(text)), nontrivial=True)
+        for tag in ("plain", "gz"):
+            if o["direct"][0] == "ok" and o[tag] != o["direct"]:
+                na = sum(len(r[3]) for r in o["direct"][1])
+                nb = sum(len(r[3]) for r in o[tag][1]) if o[tag][0] == "ok" else None
+                res.fail("spec", "C08:handle_input_file:%s:content-changes" % variant, {"family": "input-helper", "format": fmt, "variant": variant, "compressed": tag == "gz", "text": text},
+                         "read through the tools' input helper (%s file, %s): %s atoms; read from the file itself: %d atoms" % (tag, variant, nb if nb is not None else o[tag], na))
+                break
     t0 = time.time()
     outs = parallel_map(work, jobs)
     res.notes.append("timing: real reader on %d generated files %.1fs" % (len(jobs), time.time() - t0))
@@ -767,6 +834,14 @@ def eval_one(ctx, inp):
             mreq = (lambda q: ["pdb1.read", "code", qs(q), hexs(o["text"])])
         models = sorted({t["model"] for t in toks})
         it = dict(tag="corpus", fmt=o["fmt"], toks=toks, records=None, meta=dict(models=models), out=o, model_req=mreq, inp=inp)
+    elif fam == "input-helper":
+        o = through_input_helper((inp["text"], inp["format"], inp["variant"]))
+        for k, v in o.items():
+            lines.append("%s: %s" % (k, ("%d atoms in %d residues" % (sum(len(r[3]) for r in v[1]), len(v[1]))) if v[0] == "ok" else v))
+        tag = "gz" if inp.get("compressed") else "plain"
+        if o["direct"][0] == "ok" and o[tag] != o["direct"]:
+            res.fail("spec", "C08:handle_input_file:%s:content-changes" % inp["variant"], inp, "the working copy does not hold the file's content")
+        return res, lines
     elif fam == "malformed":
         o = work(dict(kind="table", fmt="pdb", text=inp["text"], reqs=[None]))
         r = D.ask1("pdb1.read", "code", "-", hexs(inp["text"]))
@@ -788,7 +863,7 @@ def eval_one(ctx, inp):
                 models.append(r["model"])
         meta = dict(models=models, nmodels=len(models))
         if fmt == "pdb":
-            text = g4v1.to_pdb(recs)
+            text = g4v1.to_pdb(recs, serial0=inp.get("serial0", 1))
             o = work(dict(kind="table", fmt="pdb", text=text, reqs=[inp.get("req")], history=inp.get("history")))
             mreq = (lambda q: ["pdb1.read", "code", qs(q), hexs(text)])
         else:
